@@ -142,7 +142,7 @@ class TLCResult:
         m = re.search(r'depth of the complete state graph search is (\d+)', out)
         if m:
             self.depth = int(m.group(1))
-        m = re.search(r'Invariant (\S+) is violated', out)
+        m = re.search(r'Invariant (\S+) is violated', out) or re.search(r'The invariant of (\S+) is equal to FALSE', out)
         if m:
             self.violated = m.group(1)
         m2 = re.search(r'Temporal properties were violated', out)
